@@ -1,6 +1,6 @@
 (* Codec core, part 6: the per-type canonicalisation  render ty text = Field<T>(text).print()
    for the C++ field classes whose conversion is simple enough to be part of the codec model:
-     int classes (ft_int .. ft_DayOfMonth): itoa(fast_atoi<int>(text))
+     int classes (ft_int .. ft_DayOfMonth): itoa(fast_atoi<int>(text))   (sign handled since a8219b1)
      char:    the first byte of the C string (NUL for the empty string)
      Boolean: 'Y' if toupper(first byte) == 'Y', else 'N'
      string classes and data: the C string verbatim
@@ -22,6 +22,10 @@ Definition render_default (ty : N) (v : list N) : list N :=
     [if toupper (match cstr v with x :: _ => x | [] => 0 end) =? 89 then 89 else 78]
   else if (ty =? ft_TZTimeOnly) || (ty =? ft_TZTimestamp) then []     (* print() returns 0: TODO in field.hpp *)
   else v.
+
+(* the rendering BEFORE /repo a8219b1 (fast_atoi without sign handling), kept for witnesses *)
+Definition render_default_orig (ty : N) (v : list N) : list N :=
+  if is_int_type ty then itoa_Z (fast_atoi_i32_orig v) else render_default ty v.
 
 (* texts on which render is the identity, per field of an object *)
 Definition canonical (r : render_t) (ty : N) (v : list N) : bool := list_eqb (r ty v) v.
